@@ -382,6 +382,7 @@ pub const KF_INDEX_ABORTED_INSERT: &str = "KF-index-entry-of-aborted-insert";
 pub const KF_NULL_IN_UNIQUE: &str = "KF-null-in-unique-column";
 pub const KF_INDEX_DDL_IN_TXN: &str = "KF-create-index-in-transaction";
 pub const KF_REINSERT_INDEX: &str = "KF-reinsert-overwrites-index-entry";
+pub const KF_CHECKPOINT_OPEN_WRITER: &str = "KF-checkpoint-with-open-writer";
 
 impl Model {
     pub fn new(enabled: &BTreeSet<String>) -> Model {
@@ -972,7 +973,16 @@ impl Model {
                 self.physical_cleanup();
                 vec![Exp::Unit]
             }
-            Op::Flush => vec![Exp::Unit],
+            Op::Flush => {
+                // a checkpoint while a transaction with writes is open: the engine writes the uncommitted pages
+                // and resets the log, so a later crash cannot undo them (KF-checkpoint-with-open-writer)
+                let open: Vec<Tx> = self.sessions.values().copied().filter(|t| self.txs[*t as usize].state == TxState::Active).collect();
+                let wrote = |t: Tx| self.tables.iter().any(|tb| tb.created_by == t || tb.dropped_by == Some(t) || tb.rows.iter().any(|r| r.xmax == Some(t) || r.versions.iter().any(|(x, _)| *x == t)));
+                if open.iter().any(|t| wrote(*t)) {
+                    self.hazard(KF_CHECKPOINT_OPEN_WRITER);
+                }
+                vec![Exp::Unit]
+            }
             Op::Analyze => vec![Exp::Unit],
             Op::Reopen => {
                 let open: Vec<Tx> = self.sessions.values().copied().collect();
